@@ -447,12 +447,12 @@ Qed.
 Lemma ref_call c key arg : Rect c -> r_call (abs c) key arg = rmap abs (c_call c key arg).
 Proof.
   intros R. destruct arg as [v|f]; cbn [r_call c_call]; [apply ref_set; assumption|].
-  unfold r_apply, c_apply. cbn [recs abs]. destruct (mapM (eval_rowfn f) (c_iter c)); cbn [bind]; [apply ref_set; assumption|reflexivity].
+  cbn [recs abs]. match goal with |- context [mapM ?g (c_iter c)] => destruct (mapM g (c_iter c)) end; cbn [bind]; [apply ref_set; assumption|reflexivity].
 Qed.
 Lemma rect_call c key arg c' : Rect c -> c_call c key arg = Ok c' -> Rect c'.
 Proof.
   intros R. destruct arg as [v|f]; cbn [c_call]; [apply rect_set; assumption|].
-  destruct (c_apply c f); cbn [bind]; [apply rect_set; assumption|discriminate].
+  match goal with |- context [mapM ?g (c_iter c)] => destruct (mapM g (c_iter c)) end; cbn [bind]; [apply rect_set; assumption|discriminate].
 Qed.
 Lemma ref_do1 f c key : Rect c -> r_do1 f (abs c) key = rmap abs (c_do1 f c key).
 Proof.
@@ -460,20 +460,20 @@ Proof.
 Qed.
 Lemma rect_do1 f c key c' : Rect c -> c_do1 f c key = Ok c' -> Rect c'.
 Proof. intros R. unfold c_do1. match goal with |- context [mapM ?g (c_iter c)] => destruct (mapM g (c_iter c)) end; cbn [bind]; [apply rect_set; assumption|discriminate]. Qed.
-Lemma do_fold f ks (x : res ctable) :
+Lemma do_fold (kfs : list (colname * colfn)) (x : res ctable) :
   match x with inl c => Rect c | inr _ => True end ->
-  fold_left (fun acc key => acc >>= fun t => r_do1 f t key) ks (rmap abs x) = rmap abs (fold_left (fun acc key => acc >>= fun t => c_do1 f t key) ks x)
-  /\ match fold_left (fun acc key => acc >>= fun t => c_do1 f t key) ks x with inl c => Rect c | inr _ => True end.
+  fold_left (fun acc kf => acc >>= fun t => r_do1 (snd kf) t (fst kf)) kfs (rmap abs x) = rmap abs (fold_left (fun acc kf => acc >>= fun t => c_do1 (snd kf) t (fst kf)) kfs x)
+  /\ match fold_left (fun acc kf => acc >>= fun t => c_do1 (snd kf) t (fst kf)) kfs x with inl c => Rect c | inr _ => True end.
 Proof.
-  revert x. induction ks as [|k ks IH]; intros x Hx; cbn [fold_left]; [split; [reflexivity|assumption]|].
-  destruct x as [c|e]; cbn [rmap bind].
+  revert x. induction kfs as [|[k f] kfs IH]; intros x Hx; cbn [fold_left]; [split; [reflexivity|assumption]|].
+  destruct x as [c|e]; cbn [rmap bind fst snd].
   - rewrite (ref_do1 f c k Hx). apply IH. destruct (c_do1 f c k) eqn:E; [eapply rect_do1; eassumption|exact I].
   - apply (IH (inr e)). exact I.
 Qed.
-Lemma ref_do c f ks : Rect c -> r_do (abs c) f ks = rmap abs (c_do c f ks).
-Proof. intros R. unfold r_do, c_do. cbn [cols abs]. apply (do_fold f _ (Ok c)). exact R. Qed.
-Lemma rect_do c f ks c' : Rect c -> c_do c f ks = Ok c' -> Rect c'.
-Proof. intros R E. unfold c_do in E. pose proof (proj2 (do_fold f (match ks with None => keys c | Some l => l end) (Ok c) R)) as H. unfold Ok in *. rewrite E in H. exact H. Qed.
+Lemma ref_do c fs ks : Rect c -> r_do (abs c) fs ks = rmap abs (c_do c fs ks).
+Proof. intros R. unfold r_do, c_do. cbn [cols abs]. apply (do_fold _ (Ok c)). exact R. Qed.
+Lemma rect_do c fs ks c' : Rect c -> c_do c fs ks = Ok c' -> Rect c'.
+Proof. intros R E. unfold c_do in E. pose proof (proj2 (do_fold (do_steps (match ks with None => keys c | Some l => l end) fs) (Ok c) R)) as H. unfold Ok in *. rewrite E in H. exact H. Qed.
 
 (* ------------------------------------------------------------------ masks: rows through dict_concat *)
 Lemma rekey_self (r : record) : NoDup (keys r) -> rekey (keys r) r = r.
